@@ -92,10 +92,10 @@ Definition show_paths (c : cfg) (o : sobj) : string :=
 
 Definition red : ustring := u "marking-definition--5e57c739-391a-4eb3-b6be-7d15ca92d5ed".
 
-(* constructing / parsing the object with granular_markings=[{selectors:[sel], marking_ref: RED}] added *)
-Definition construct_with (c : cfg) (o : sobj) (sel : ustring) : outcome sobj :=
+(* constructing / parsing the object with granular_markings=[{selectors: sels, marking_ref: RED}] added *)
+Definition construct_with (c : cfg) (o : sobj) (sels : list ustring) : outcome sobj :=
   let o' := mkobj (o_kind o) (o_v21 o) (o_vtype o) (o_props o) (o_omr o)
-                  (Some (List.app (gms_list o) [mkgm [sel] red []])) in
+                  (Some (List.app (gms_list o) [mkgm sels red []])) in
   match ctor_check c o' with
   | Some e => Err e
   | None => Ok o'
@@ -115,18 +115,18 @@ Definition code_err (e : err) : string :=
   end.
 Definition code {A} (r : outcome A) : string := match r with Ok _ => "o" | Err e => code_err e end.
 
-(* one selector through validate, the six functions (marking RED where one is
-   needed, default flags) and construction with the selector in a granular
+(* one selector list through validate, the six functions (marking RED where one is
+   needed, default flags) and construction with the list in a granular
    marking: validate get is_marked add remove clear set ctor, one letter each *)
-Definition c08_line (c : cfg) (o : sobj) (sel : ustring) : string :=
-  (if validate c (view o) [sel] then "o" else "S") ++
-  code (get_markings c o (Some [sel]) false false true true) ++
-  code (is_marked c o [] (Some [sel]) false false) ++
-  code (add_markings c o [red] (Some [sel])) ++
-  code (remove_markings c o [red] (Some [sel])) ++
-  code (clear_markings c o (Some [sel]) true true) ++
-  code (set_markings c o [red] (Some [sel]) true true) ++
-  (match o_kind o with KObj => code (construct_with c o sel) | KDict => "-" end).
+Definition c08_line (c : cfg) (o : sobj) (sels : list ustring) : string :=
+  (if validate c (view o) sels then "o" else "S") ++
+  code (get_markings c o (Some sels) false false true true) ++
+  code (is_marked c o [] (Some sels) false false) ++
+  code (add_markings c o [red] (Some sels)) ++
+  code (remove_markings c o [red] (Some sels)) ++
+  code (clear_markings c o (Some sels) true true) ++
+  code (set_markings c o [red] (Some sels) true true) ++
+  (match o_kind o with KObj => code (construct_with c o sels) | KDict => "-" end).
 
-Definition c08_lines (c : cfg) (o : sobj) (sels : list ustring) : string :=
+Definition c08_lines (c : cfg) (o : sobj) (sels : list (list ustring)) : string :=
   join " " (map (c08_line c o) sels).
